@@ -502,6 +502,32 @@ def run_forwarded_writes(rec, F):
     rec.floor(R, "block writes in List methods", n, 5)
 
 
+def run_scan_covers_stack(rec, F):
+    R = rec.rule("F10.scan-all", "after a list has been relocated, Fiber::scan_roots rewrites the references in every frame of the fiber: it iterates the whole value stack (self.stack), not a window starting at the current frame (stack_start) - the callers' locals alias the list too, and Value equality is address equality")
+    fn = F.fn("laythe_vm::fiber::Fiber::scan_roots")
+    if fn is None:
+        rec.anchor_lost("F10.scan-all", "Fiber::scan_roots")
+        return
+    whole = False
+    window = []
+    for bi, t in fn.calls():
+        n = lastseg(t["f"])
+        if n in ("iter_mut", "into_iter", "deref_mut", "as_mut_slice") and t["args"]:
+            d = str(sem.desc_operand(fn, t["args"][0]))
+            if "('stack',)" in d and "stack_start" not in d:
+                whole = True
+        if n in ("stack_start", "from_raw_parts_mut", "from_raw_parts", "frame", "split_at_mut", "get_mut", "get_unchecked_mut"):
+            window.append(n)
+    for bi, si, s in fn.stmts():
+        r = s["r"]
+        if r["k"] == "agg" and "Range" in r.get("adt", ""):
+            window.append("range")
+    ok = whole and not window
+    rec.inst(R, "scan_roots iterates self.stack from its base", ok=ok, loc=fn.loc, note="whole=%s window=%s" % (whole, window))
+    if not ok:
+        rec.finding(R, "F10.scan-all/scan_roots", "Fiber::scan_roots no longer walks the whole value stack (%s): references to a relocated list held in the frames of the callers keep the old address, so the list a callee returns is unequal to the caller's own variable and misses map entries keyed by it" % (", ".join(window) or "source is not self.stack"), loc=fn.loc, fn=fn.path)
+
+
 IDENTITY_SINKS = ("contains", "eq", "ne", "position", "rposition", "get", "get_mut", "insert", "remove", "contains_key", "has", "index_of", "binary_search", "starts_with", "ends_with")
 
 
